@@ -7,6 +7,18 @@ def run(prop, tier, seed, wd, t0):
     out = fw.Outcome()
     cov = lrtv.c12_obligations(prop, tier, seed, wd, out)
     cov['disagreements_checked'] = out.disagreements
+    # the usable filter of apply_macros (a rejected macro is reported once, never consulted, and does not block or hide any other macro): the real
+    # apply_macros with detectors stubbed by contract, one job per rejection pattern over the definition positions (harness/macro_apply.cpp)
+    try:
+        import macroh
+        confs = [((5, 5), (1, 0)), ((5, 5), (0, 1)), ((5, 5), (1, 1))]
+        if tier != 'quick': confs += [((5, 9, 5), (1, 1, 0)), ((5, 9, 5), (0, 1, 1)), ((5, 5, 5), (1, 0, 1)), ((5, 5, 5), (1, 1, 1))]
+        mj = [macroh.select_job('filter.rejected_%s' % ''.join(map(str, cf)), pr, conf=cf, tags=[prop], timeout=600 if tier == 'quick' else 1500) for pr, cf in confs]
+        fw.run_jobs(prop, mj, wd)
+        fw.classify(prop, mj, wd, out)
+        cov['usable_filter_jobs'] = [j.name for j in mj]
+    except ImportError:
+        pass
     return fw.finish(prop, tier, seed, 'translation_validation', out, t0, coverage_extra=cov, assumptions=fw.COMMON_ASSUMPTIONS + lrtv.C12_ASSUMPTIONS, explanation=lrtv.C12_EXPLANATION)
 
 
